@@ -88,7 +88,10 @@ def rayleigh(data: np.ndarray, model: np.ndarray) -> np.ndarray:
 
 def rayleigh_grad(data: np.ndarray, model: np.ndarray) -> np.ndarray:
     """Return gradient function for rayleigh distributions."""
-    return 2 / (model + EPS) - (np.pi / 2) * data**2 / (model + EPS) ** 3
+    # Square in double precision (narrow integer data would wrap around)
+    return 2 / (model + EPS) - (np.pi / 2) * np.multiply(data, data, dtype=float) / (
+        model + EPS
+    ) ** 3
 
 
 def gamma(data: np.ndarray, model: np.ndarray) -> np.ndarray:
@@ -98,7 +101,8 @@ def gamma(data: np.ndarray, model: np.ndarray) -> np.ndarray:
 
 def gamma_grad(data: np.ndarray, model: np.ndarray) -> np.ndarray:
     """Return gradient function for gamma distributions."""
-    return -data / (model + EPS) ** 2 + 1 / (model + EPS)
+    # (unsigned data cannot be negated)
+    return 1 / (model + EPS) - data / (model + EPS) ** 2
 
 
 def huber(data: ttb.tensor, model: ttb.tensor, threshold: float) -> np.ndarray:
